@@ -678,6 +678,32 @@ func TestVerifC08(t *testing.T) {
 				ops = append(ops, table()...)
 				add(false, ops...)
 			}
+			// the same table with ONE message kind per case (sendoffer / answer / endOfCandidates), so that a change at one
+			// call site of the permission test is reported through that kind: kind x stream type x permission set, the
+			// set given by the join reply, then everything granted, then the set again through the participants API
+			for _, mk := range []string{"sendoffer", "answer", "endOfCandidates"} {
+				for _, set := range [][]int{{4}, {}, {0}, {1}, {0, 1}, {3}, {2}, {3, 2}, {0, 2}, {1, 2, 4}, {0, 1, 2, 3, 4, 5}} {
+					one := func() []hdOp {
+						var ops []hdOp
+						for _, st := range []string{"screen", "video", "audio"} {
+							if mk == "sendoffer" {
+								ops = append(ops, sendoffer(1, 2, st), sendoffer(1, 2, st), sendoffer(1, 1, st),
+									hdOp{K: "media", C: 1, Mk: "sendoffer", Stream: st, To: &hdRecipient{T: "session", Id: &hdIdRef{T: "other", O: 1}}})
+							} else {
+								ops = append(ops, own(mk, 1, st), hdOp{K: "media", C: 1, Mk: mk, Stream: st, Media: 3, To: hdToSession(2)})
+							}
+						}
+						return ops
+					}
+					ops := []hdOp{joinP(1, 1, 1, set...), hdJoinOp(2, 1, 2), incall}
+					ops = append(ops, one()...)
+					ops = append(ops, perms(1, 0, 1, 2, 3, 4, 5))
+					ops = append(ops, one()...)
+					ops = append(ops, perms(1, set...))
+					ops = append(ops, one()...)
+					add(false, ops...)
+				}
+			}
 			return out
 		}})
 }
